@@ -17,13 +17,17 @@
 
 using namespace par;
 
-struct Slots {
+template <class Elem>
+struct SlotsT {
     Elem* data;
     int* count;
     size_t n;
 };
 
-struct CountIt {
+template <class Elem>
+struct CountItT {
+    typedef SlotsT<Elem> Slots;
+    typedef CountItT CountIt;
     typedef std::random_access_iterator_tag iterator_category;
     typedef Elem value_type;
     typedef ptrdiff_t difference_type;
@@ -61,7 +65,8 @@ struct CountIt {
     bool operator>(const CountIt& o) const { return i > o.i; }
     bool operator>=(const CountIt& o) const { return i >= o.i; }
 };
-inline CountIt operator+(ptrdiff_t d, const CountIt& it) { return it + d; }
+template <class Elem>
+inline CountItT<Elem> operator+(ptrdiff_t d, const CountItT<Elem>& it) { return it + d; }
 
 enum Entry { E_FRONT_FORCE = 0, E_BASE = 1, E_FRONT_MINIMAL = 2, E_SENTINELS_FORCE = 3 };
 static const char* entry_name[] = {"parallel_multiway_merge", "parallel_multiway_merge_base", "parallel_multiway_merge(minimal_n=0)",
@@ -70,16 +75,17 @@ static const char* entry_name[] = {"parallel_multiway_merge", "parallel_multiway
 struct Case {
     std::vector<std::vector<uint32_t>> seqs;
     int length, threads, splitting, oversampling, mwma, stable, entry;
+    int tracked = 0;  // element type: 0 = plain struct, 1 = heap-owning lifetime-tracked (copy-assignment onto raw storage, leaks, use of dead elements)
     std::string seqs_str() const {
         std::string s;
         for (size_t i = 0; i < seqs.size(); ++i) s += (i ? "," : "") + keys_str(seqs[i]);
         return seqs.empty() ? "none" : s;
     }
     std::string str() const {
-        return vh::fmt("%s|L%d|t%d|s%d|o%d|a%d|%d|e%d", seqs_str().c_str(), length, threads, splitting, oversampling, mwma, stable, entry);
+        return vh::fmt("%s|L%d|t%d|s%d|o%d|a%d|%d|e%d%s", seqs_str().c_str(), length, threads, splitting, oversampling, mwma, stable, entry, tracked ? "|tracked" : "");
     }
     std::string label() const {
-        return vh::fmt("%s%s[%s]", stable ? "stable_" : "", entry_name[entry], splitting ? "exact" : "sampling");
+        return vh::fmt("%s%s[%s%s]", stable ? "stable_" : "", entry_name[entry], splitting ? "exact" : "sampling", tracked ? ",tracked" : "");
     }
 };
 
@@ -109,12 +115,16 @@ static Case parse_case(const std::string& s) {
     c.mwma = atoi(f[5].c_str() + 1);
     c.stable = atoi(f[6].c_str());
     c.entry = atoi(f[7].c_str() + 1);
+    c.tracked = f.size() > 8 && f[8] == "tracked";
     return c;
 }
 
 typedef void (*FailFn)(const char* kind, const std::string& msg);
 
-static void run_merge(const Case& c, FailFn failfn) {
+template <class Elem, class ElemLess>
+static void run_merge_t(const Case& c, FailFn failfn) {
+    typedef SlotsT<Elem> Slots;
+    typedef CountItT<Elem> CountIt;
     size_t k = c.seqs.size();
     bool sentinels = c.entry == E_SENTINELS_FORCE;
     // inputs: exact-size heap blocks (one extra slot holding a maximal key for the sentinel entry points)
@@ -200,6 +210,23 @@ static void run_merge(const Case& c, FailFn failfn) {
     for (size_t s = 0; s < k; ++s) delete[] buf[s];
     delete[] slots.data;
     delete[] slots.count;
+}
+
+static void run_merge(const Case& c, FailFn failfn) {
+    if (!c.tracked) {
+        run_merge_t<par::Elem, par::ElemLess>(c, failfn);
+        return;
+    }
+    long live0 = Tracked::live().load();
+    Tracked::errors() = 0;
+    run_merge_t<Tracked, TrackedLess>(c, failfn);
+    if (Tracked::errors().load() != 0) {
+        Tracked::errors() = 0;
+        failfn("use-of-dead-element", c.str() + ": an element was read, assigned or destroyed while not alive (e.g. assignment onto raw storage)");
+    }
+    if (Tracked::live().load() != live0)
+        failfn("temporaries-not-destroyed", vh::fmt("%s: %ld element instance(s) created by the merge are still alive after it returned", c.str().c_str(),
+                                                    Tracked::live().load() - live0));
 }
 
 // all sorted sequences over `nkeys` keys with length <= maxlen
@@ -334,7 +361,7 @@ int main(int argc, char** argv) {
         for (auto& s : tuples[t]) total += s.size();
         for (size_t L = 0; L <= total; ++L) tl.push_back({(uint32_t)t, (uint16_t)L});
     }
-    uint64_t per = threads.size() * cfgs.size();
+    uint64_t per = threads.size() * cfgs.size() * 2;  // x element type
     uint64_t ncases = tl.size() * per;
     if (vh::args().shard == 0) {
         Case ex{tuples[tuples.size() / 3], 2, 3, 1, 10, 0, 1, 0};
@@ -345,6 +372,8 @@ int main(int argc, char** argv) {
         Case c;
         c.seqs = tuples[tl[ti].tuple];
         c.length = tl[ti].length;
+        c.tracked = (int)(q % 2);
+        q /= 2;
         c.threads = threads[q % threads.size()];
         const Cfg& g = cfgs[q / threads.size()];
         c.splitting = g.splitting;
